@@ -10,11 +10,12 @@ cd $D/verif
 (cd harness && CARGO_NET_OFFLINE=true cargo build --offline --bins 2>&1 | tail -1)
 props=""
 for pk in "$@"; do
-  p=${pk%%-*}; props="$props $p"
+  # "Cxx:Cyy-k" runs check Cxx on the seeded change Cyy-k (cross-property detection)
+  if [[ "$pk" == *:* ]]; then p=${pk%%:*}; pk=${pk#*:}; else p=${pk%%-*}; fi; props="$props $p"
   (cd $D/repo && git checkout -q -- . && git clean -fdq tests 2>/dev/null; git apply /verif/seeded/$pk/patch.diff) || { echo "== $pk apply failed"; continue; }
-  echo "== $pk"
-  VERIF_REPO=$D/repo ./check $p --tier quick > /verif/work/seedruns/$pk.log 2>&1
-  grep -E "VIOLATION|^\[C" /verif/work/seedruns/$pk.log | cut -c1-170 | head -4
+  echo "== $p on $pk"
+  VERIF_REPO=$D/repo ./check $p --tier quick > /verif/work/seedruns/$p-on-$pk.log 2>&1
+  grep -E "VIOLATION|^\[C" /verif/work/seedruns/$p-on-$pk.log | cut -c1-170 | head -4
 done
 (cd $D/repo && git checkout -q -- .)
 for p in $(echo $props | tr ' ' '\n' | sort -u); do
